@@ -8,6 +8,7 @@ Spec: `Expr`, `compile` (Numbers' post-fix serialisation), `render` (the convent
 -/
 import NumbersModel.Lemmas.Formula
 import NumbersModel.Lemmas.FormulaParse
+import NumbersModel.Lemmas.FormulaCanon
 namespace NumbersModel.Props.C08
 open NumbersModel NumbersModel.Formula
 
@@ -97,23 +98,87 @@ theorem function_names_distinct :
     (Gen.FUNCTION_MAP.map Prod.snd).Nodup ∧ (Gen.FUNCTION_MAP.map Prod.fst).Nodup :=
   ⟨functionNames_nodup, functionIds_nodup⟩
 
-/-- PARTIAL (design stretch `parse_show`).
-    FULL STATEMENT: ∀ e : Expr, WellParen e → parse (lex (render e)) = some e, for a precedence-climbing
-    parser over the characters of the rendered text and all constructors.
-    PROVED HERE, for the operator fragment `Parse.PE` = {opaque atoms, the 12 binary operators, unary minus,
-    postfix %, a parenthesised expression (LIST node with one element)} at TOKEN level:
-    (1) the stored post-fix nodes of the tree render to exactly the concatenation of its tokens' texts,
-    (2) the precedence-climbing parser `Parse.parse` (all binary operators left-associative, comparisons
-        loosest, unary minus tighter than any binary operator, % tightest; `prec` = the library's
-        OPERATOR_PRECEDENCE, see `prec_as_library`) reads the token stream back to exactly that tree, for every
-        tree parenthesised the way Numbers stores it (`Parse.WP`) and all sufficiently large fuel.
-    NOT covered: the lexer (characters → tokens), function calls, multi-element lists, arrays, literals'
-    internal syntax (strings: `string_literal_invertible`; numbers: `number_text_denotes`). -/
-theorem parse_show_partial (name : Nat → Text) (e : Parse.PE) (hw : Parse.WP e) :
-    formulaText (compile (Parse.embed name e)) = .ok (((Parse.toks e).map (Parse.tokText name)).flatten) ∧
-    ∃ F, ∀ F', F ≤ F' → Parse.parse F' (Parse.toks e) = some e := by
-  refine ⟨?_, Parse.parse_toks e hw⟩
-  rw [exec_compile_top _ (Parse.wellFormed_embed name e), Parse.render_embed]
+/-! ### the text denotes the stored expression (`parse_show`)
+
+`Parse.PT` is what a formula text can denote; it has a constructor for every constructor of `Expr`.
+`Parse.canon : Expr → PT` forgets exactly what the text cannot show: how a number is stored (it keeps its
+decimal text), which of the two boolean node kinds was used, a date literal versus the `DATE(y,m,d)` call
+it is printed as, a function id versus its name (`function_names_distinct`: one-to-one on known ids),
+an array's flat row-major storage versus its rows.  Operators, operand order, function names, argument
+order (omitted arguments included), list and array shapes and every literal are kept. -/
+
+/-- TOKEN LEVEL, every constructor: the precedence-climbing parser `Parse.parseToks` (all binary operators
+    left-associative, comparisons loosest, unary minus tighter than any binary operator, `%` tightest;
+    `prec` = the library's OPERATOR_PRECEDENCE, see `prec_as_library`; `,` between arguments / list
+    elements / array cells and `;` between array rows, as `Formula.function/list/array` print them; fuel =
+    four units per token, proved sufficient) reads the token stream of EVERY tree that is parenthesised the
+    way Numbers stores it (`Parse.WP`) back to exactly that tree: literals, references, the 12 binary
+    operators, unary minus, `%`, lists `(a,b,…)`, calls `NAME(arg,…)` with 0..n arguments and omitted
+    arguments, 1-D and 2-D array literals.  No depth or size bound. -/
+theorem parse_show (t : Parse.PT) (hw : Parse.WP t = true) : Parse.parseToks (Parse.toks t) = some t :=
+  Parse.parseToks_toks t hw
+
+/-- … in particular for the image of every stored expression. -/
+theorem parse_show_expr (e : Expr) (hw : Parse.WellParen e = true) :
+    Parse.parseToks (Parse.toks (Parse.canon e)) = some (Parse.canon e) :=
+  Parse.parseToks_toks _ hw
+
+/-- what the renderer prints for `e` is the conventional rendering of `canon e`, for every expression. -/
+theorem render_canon (e : Expr) : render e = Parse.renderPT (Parse.canon e) := Parse.render_canon e
+
+/-- CHARACTER LEVEL: the lexer `Parse.lex` (numbers, `"…"` strings with doubled quotes, names / references
+    as maximal runs incl. `'…'` quoted segments, one- and two-character operators incl. × ÷ ≥ ≤ ≠,
+    separators, brackets) reads the rendered text of a tree back to exactly the tree's token stream, for
+    trees whose atoms are `LexSafe`. -/
+theorem lex_renderPT (t : Parse.PT) (hw : Parse.WP t = true) (hs : Parse.LexSafe t = true) :
+    Parse.lex (Parse.renderPT t) = some (Parse.toks t) := Parse.lex_renderPT t hw hs
+
+/-- for a stored expression the only conditions are on what is opaque here: reference texts must be
+    `Parse.nameSafe` (one word: no operator, bracket, separator or double-quote character outside a closed
+    `'…'` segment; not a decimal; not TRUE/FALSE) and exponent-free stored numbers must print as decimals
+    (`Parse.numSafe`; true for every finite non-negative float).  Integers, exponent-form numbers, dates,
+    strings with arbitrary content, booleans and all function names (checked over the generated
+    FUNCTION_MAP) are always read back. -/
+theorem lex_render (e : Expr) (hwf : WellFormed e = true) (hw : Parse.WellParen e = true)
+    (hs : Parse.RefsSafe e = true) : Parse.lex (render e) = some (Parse.toks (Parse.canon e)) := by
+  rw [render_canon]
+  exact Parse.lex_renderPT _ hw (Parse.lexSafe_canon e hwf hs)
+
+/-- COMPOSITION (`parse (lex (render e)) = some e` of the design, with `canon` making explicit what a text
+    can show): reading the text that `Cell.formula` returns for a well-formed stored expression gives back
+    the expression — same operators on the same operands in the same order, same function names and
+    arguments in order, same literals. -/
+theorem read_render (e : Expr) (hwf : WellFormed e = true) (hw : Parse.WellParen e = true)
+    (hs : Parse.RefsSafe e = true) :
+    ∃ text, formulaText (compile e) = .ok text ∧ Parse.readText text = some (Parse.canon e) := by
+  refine ⟨render e, exec_compile_top e hwf, ?_⟩
+  rw [render_canon]
+  exact Parse.readText_renderPT _ hw (Parse.lexSafe_canon e hwf hs)
+
+/-- hence the text determines the expression: two stored expressions with the same formula text denote
+    the same tree. -/
+theorem text_determines_expression (e₁ e₂ : Expr)
+    (h₁ : WellFormed e₁ = true ∧ Parse.WellParen e₁ = true ∧ Parse.RefsSafe e₁ = true)
+    (h₂ : WellFormed e₂ = true ∧ Parse.WellParen e₂ = true ∧ Parse.RefsSafe e₂ = true)
+    (h : formulaText (compile e₁) = formulaText (compile e₂)) : Parse.canon e₁ = Parse.canon e₂ := by
+  obtain ⟨t₁, ht₁, hr₁⟩ := read_render e₁ h₁.1 h₁.2.1 h₁.2.2
+  obtain ⟨t₂, ht₂, hr₂⟩ := read_render e₂ h₂.1 h₂.2.1 h₂.2.2
+  rw [ht₁, ht₂] at h
+  injection h with h
+  subst h
+  rw [hr₁] at hr₂
+  exact Option.some.inj hr₂
+
+/-- `nameSafe` holds for every plain reference text: non-empty, only word characters (no operator, bracket,
+    separator or quote character), at least one character that is not a digit or `.` (a column letter, `$`, `:`),
+    not TRUE / FALSE — i.e. every A1-style reference, range, row / column range and `Table::` prefix made of
+    such characters. -/
+theorem a1_references_nameSafe (t : Text) (hne : t ≠ []) (hp : ∀ c ∈ t, Parse.isDelim c = false ∧ c ≠ '\'')
+    (hnd : ∃ c ∈ t, isAsciiDigit c = false ∧ c ≠ '.') (h1 : t ≠ "TRUE".toList) (h2 : t ≠ "FALSE".toList) :
+    Parse.nameSafe t = true := Parse.nameSafe_plain t hne hp hnd h1 h2
+
+/-- every function name of the generated FUNCTION_MAP (and `UNDEFINED!`) is one word for the lexer. -/
+theorem function_names_lex (f : Nat) : Parse.wordOK (funcName f) = true := Parse.wordOK_funcName f
 
 /-- the parser's precedence table is the library's own OPERATOR_PRECEDENCE (generated) on the operators
     it lists; comparisons (not listed there) bind loosest. -/
@@ -141,15 +206,37 @@ example : WellFormed (.num (.sci '1' "5".toList 16)) = true ∧
     formulaText (compile (.num (.sci '1' "5".toList 16))) = .ok "15000000000000000".toList := by decide
 example : scanString "\"a\"\"b\"+1".toList = some ("a\"b".toList, "+1".toList) := by decide
 example : formulaText [{ ty := 17, decHigh := 0, numRepr := "1.5e-07".toList }] = .ok "0.00000015".toList := by decide
--- 1-(2-3) and -(1+2)%^3×4 are read back; 1-2-3 is the left-nested tree
-example : Parse.WP (.bin .sub (.atom 1) (.paren (.bin .sub (.atom 2) (.atom 3)))) ∧
-    Parse.parse 20 (Parse.toks (.bin .sub (.atom 1) (.paren (.bin .sub (.atom 2) (.atom 3)))))
-      = some (.bin .sub (.atom 1) (.paren (.bin .sub (.atom 2) (.atom 3)))) := by
-  refine ⟨by simp [Parse.WP, Parse.lvl, Parse.prec], by decide⟩
-example : Parse.parse 9 [.atom 1, .op .sub, .atom 2, .op .sub, .atom 3]
-    = some (.bin .sub (.bin .sub (.atom 1) (.atom 2)) (.atom 3)) := by decide
-example : Parse.parse 12 [.atom 1, .op .add, .atom 2, .op .mul, .op .sub, .atom 3, .pct, .op .pow, .atom 4]
-    = some (.bin .add (.atom 1) (.bin .mul (.atom 2) (.bin .pow (.neg (.pct (.atom 3))) (.atom 4)))) := by decide
+-- reading real-looking texts: 1-(2-3) keeps its parentheses; 1-2-3 is the left-nested tree
+example : (Parse.readText "1-(2-3)".toList).map Parse.sexp
+    = some "(sub (num 1) (paren (sub (num 2) (num 3))))".toList := by decide +kernel
+example : (Parse.readText "1-2-3".toList).map Parse.sexp
+    = some "(sub (sub (num 1) (num 2)) (num 3))".toList := by decide +kernel
+example : (Parse.readText "1+2×-3%^4".toList).map Parse.sexp
+    = some "(add (num 1) (mul (num 2) (pow (neg (pct (num 3))) (num 4))))".toList := by decide +kernel
+-- calls with omitted arguments, a 2×2 array, a quoted string, a quoted reference, TRUE as literal and as function
+example : (Parse.readText "SUM(A1:B2,,{1,2;3,\"a\"\"b\"})≤Table 1::'a+b'&TRUE()<>TRUE".toList).map Parse.sexp
+    = some ("(ne (le (call SUM (name A1:B2) (empty) (arr (row (num 1) (num 2)) (row (num 3) (str \"a\"\"b\")))) " ++
+        "(concat (name Table 1::'a+b') (call TRUE))) (bool TRUE))").toList := by decide +kernel
+example : Parse.readText "1+".toList = none ∧ Parse.readText "(1".toList = none ∧ Parse.readText "'a".toList = none ∧
+    Parse.readText "\"a".toList = none ∧ Parse.readText "{1,2;}".toList = none := by decide +kernel
+-- the hypotheses of read_render are satisfiable on a tree using every constructor
+def sampleExpr : Expr :=
+  .bin .sub
+    (.call 168 [.date 0, .empty, .arr 2 2 [.num (.int 1), .num (.plain "0.5".toList),
+      .num (.sci '1' "5".toList (-7)), .str "a\"".toList]])
+    (.paren [.neg (.pct (.ref "$A$1:B2".toList)), .bool true false])
+example : WellFormed sampleExpr = true ∧ Parse.WellParen sampleExpr = true ∧ Parse.RefsSafe sampleExpr = true := by
+  decide +kernel
+example : (render sampleExpr, (Parse.readText (render sampleExpr)).map Parse.sexp) =
+    ("SUM(DATE(2001,1,1),,{1,0.5;0.00000015,\"a\"\"\"})-(-$A$1:B2%,FALSE)".toList,
+     some ("(sub (call SUM (call DATE (num 2001) (num 1) (num 1)) (empty) (arr (row (num 1) (num 0.5)) " ++
+       "(row (num 0.00000015) (str \"a\"\"\")))) (paren (neg (pct (name $A$1:B2))) (bool FALSE)))").toList) := by
+  decide +kernel
+example : Parse.nameSafe "A1".toList = true ∧ Parse.nameSafe "$A$1:$B2".toList = true ∧
+    Parse.nameSafe "Sheet 1::Table 1::A1:B2".toList = true ∧ Parse.nameSafe "Table 1::'a-b':'c+d'".toList = true ∧
+    Parse.nameSafe "#REF!".toList = true ∧ Parse.nameSafe "1:3".toList = true ∧
+    Parse.nameSafe "a+b".toList = false ∧ Parse.nameSafe "12".toList = false ∧ Parse.nameSafe "'a".toList = false := by
+  decide
 -- ill-formed programs fail the way the code does (pop from empty list)
 example : formulaText [{ ty := 1 }] = .error .IndexError := by decide
 
